@@ -129,7 +129,54 @@ def consumer_ok(body, start_local, depth=0):
     return True, '; '.join(d for _, d in verdicts[:3])
 
 
-def sorted_before_use(body, v, from_bb):
+_MIR = [None]
+
+
+def compared_fields(body):
+    """the fields of self / other that a hand-written comparison (`cmp`, `partial_cmp`, `eq`) compares pairwise, or None when it does anything else"""
+    out = set()
+    n = 0
+    for b, t in body.calls():
+        m = method(cname(t))
+        if m in ('cmp', 'partial_cmp', 'eq', 'ne', 'then', 'then_with', 'branch', 'from_residual', 'deref', 'as_str', 'as_ref', 'borrow'):
+            if m in ('cmp', 'partial_cmp', 'eq', 'ne') and len(t['args']) == 2 and op_place(t['args'][0]) and op_place(t['args'][1]):
+                a, b_ = canon(body, op_place(t['args'][0])), canon(body, op_place(t['args'][1]))
+                if {a[0], b_[0]} == {1, 2} and a[1] == b_[1] and '.' in a[1]:
+                    out.add(a[1].replace('&', '').replace('*', ''))
+                    n += 1
+                    continue
+                return None
+            continue
+        if cname(t).startswith('{closure') or body.kind == 'Closure':
+            return None
+        return None
+    return out if n else None
+
+
+def sort_is_canonical(mir, body, t):
+    """does this sort leave one order whatever order the elements arrived in?  Only if no two distinct elements compare Equal: `sort()` with the
+    derived / primitive order does; a hand-written Ord must compare at least what the hand-written Eq (the identity the hash container used) compares;
+    a sort by key or by comparator keeps the arrival order of ties"""
+    m = method(cname(t))
+    if m not in ('sort', 'sort_unstable'):
+        return False, f'{m} keeps the hash order of elements whose keys tie (sort by the whole element, or collect into an ordered container)'
+    g = (t.get('generics') or '') + ' ' + (t.get('self_ty') or '')
+    for ty, (rx, fns) in mir.impls_by_type().items():
+        if not rx.search(g):
+            continue
+        cmpf = [f for f in fns if f.endswith(' as std::cmp::Ord>::cmp')]
+        if not cmpf or (mir.bodies[cmpf[0]].j.get('span') or {}).get('exp'):
+            continue        # derived: lexicographic over all fields, consistent with the derived Eq
+        eqf = [f for f in fns if f.endswith(' as std::cmp::PartialEq>::eq')]
+        cf = compared_fields(mir.bodies[cmpf[0]])
+        ef = compared_fields(mir.bodies[eqf[0]]) if eqf and not (mir.bodies[eqf[0]].j.get('span') or {}).get('exp') else None
+        if cf is None or ef is None or not cf >= ef:
+            return False, (f'the hand-written order of {ty} compares {sorted(cf) if cf is not None else "?"} while its equality compares '
+                           f'{sorted(ef) if ef is not None else "all fields (derived)"}: distinct elements that compare Equal keep their hash order')
+    return True, ''
+
+
+def sorted_before_use(body, v, from_bb, mir=None):
     """the Vec in local v is sorted before any other use"""
     sort_blocks = []
     other = []
@@ -154,6 +201,9 @@ def sorted_before_use(body, v, from_bb):
         if t['k'] == 'call' and any(op_local(a) in fam for a in t['args']):
             m = method(cname(t))
             if m in SORTS:
+                okc, why = sort_is_canonical(mir or _MIR[0], body, t) if (mir or _MIR[0]) is not None else (True, '')
+                if not okc:
+                    return False, 'collected into a Vec whose sort does not fix the order: ' + why
                 sort_blocks.append(b)
             elif m in ('deref_mut', 'as_mut_slice', 'deref'):
                 pass
@@ -171,6 +221,7 @@ def sorted_before_use(body, v, from_bb):
 
 def run(rep):
     mir = Mir()
+    _MIR[0] = mir
     _MIR[0] = mir
     rep.explanation = __doc__
     rep.trusted = ['rustc nightly MIR + Instance resolution', 'naga front end, prettyplease, rustfmt are deterministic (not decided)',
